@@ -1363,7 +1363,7 @@ def gen_cases(tier, rng):
         if quick and e.get("slow"):
             continue
         for cont in e["conts"]:
-            for v in range(reps):
+            for v in range(reps if not e.get("tuner") else max(1, reps // 2)):      # a tuner case costs about ten ordinary ones
                 cases.append(_seq_case(rng, key, cont, quick, variant=v + rng.randrange(2) if (e["fam"] != "fc" or (quick and e.get("tuner"))) else v))
             if e["fam"] == "fc" and quick and not e.get("tuner"):
                 # both index kinds for forecasters even in the quick tier (the adapters' index replacement needs Int64Index)
